@@ -15,6 +15,10 @@ package quic
 // peer STREAM frames ending at {limit-1, limit, limit+1} of the stream and of
 // the connection limit, Read, CloseRead, ack, loss. Reference model of both
 // limit sets as advertised in the frames the conn actually sent.
+//
+// recv-packets: the recv alphabet plus packets with two frames (credit-returning
+// RESET_STREAM / data on one stream, then data on the other stream around the
+// connection limit that was on the wire before the packet).
 
 import (
 	"fmt"
@@ -322,6 +326,8 @@ func (g c20SendGen) Apply(op string) (qpeerGen, bool) {
 //      s<i>:slD  ... up to (stream limit advertised)+D
 //      s<i>:clD  ... up to the offset that makes the connection total (connection limit advertised)+D
 //      r<i>:slD / r<i>:clD  peer RESET_STREAM with that final size
+//      r<i>:+0    peer RESET_STREAM with final size = highest offset sent so far
+//      A&B        frames A and B (any of the s/r forms) in ONE packet, in that order
 //      rd<i> Read(1000) | rs<i> Read(10) | cr<i> CloseRead | ack | loss
 
 func c20ExecRecv(c *vx.Ctx, w *vx.W, cs c20Case) {
@@ -371,7 +377,7 @@ func c20ExecRecv(c *vx.Ctx, w *vx.W, cs c20Case) {
 		nRead := 0
 		ran := 0
 		for _, op := range cs.Ops {
-			name, arg, _ := strings.Cut(op, ":")
+			name, _, _ := strings.Cut(op, ":")
 			switch {
 			case op == "ack":
 				q.ackAll()
@@ -390,71 +396,98 @@ func c20ExecRecv(c *vx.Ctx, w *vx.W, cs c20Case) {
 				streams[i].CloseRead()
 				closedRead[i] = true
 			case name[0] == 's' || name[0] == 'r':
-				i, _ := strconv.Atoi(name[1:])
-				total := hw[0] + hw[1]
-				var end int64
-				d, _ := strconv.ParseInt(arg[2:], 10, 64)
-				switch {
-				case arg[0] == '+':
-					d, _ = strconv.ParseInt(arg[1:], 10, 64)
-					end = hw[i] + d
-				case strings.HasPrefix(arg, "sl"):
-					end = advS(i) + d
-				case strings.HasPrefix(arg, "cl"):
-					end = hw[i] + (adv.advC + d - total)
+				// One packet carrying one frame, or several ("A&B", in that order). Every frame is
+				// resolved and judged against the limits the conn had put on the wire BEFORE the
+				// packet (the only ones the peer can know), with the offsets of the earlier frames
+				// of the packet counted.
+				subs := strings.Split(op, "&")
+				limC := adv.advC
+				limS := [2]int64{advS(0), advS(1)}
+				nhw, nReset, nTainted := hw, isReset, tainted
+				var frames []debugFrame
+				over, overWhich, overSfx, overDesc := -1, "", "", ""
+				for k, sub := range subs {
+					name, arg, _ := strings.Cut(sub, ":")
+					i, _ := strconv.Atoi(name[1:])
+					total := nhw[0] + nhw[1]
+					var end int64
+					d, _ := strconv.ParseInt(arg[2:], 10, 64)
+					switch {
+					case arg[0] == '+':
+						d, _ = strconv.ParseInt(arg[1:], 10, 64)
+						end = nhw[i] + d
+					case strings.HasPrefix(arg, "sl"):
+						end = limS[i] + d
+					case strings.HasPrefix(arg, "cl"):
+						end = nhw[i] + (limC + d - total)
+					}
+					// a RESET_STREAM may carry the current highest offset as its final size (no new bytes)
+					if end < nhw[i] || (end == nhw[i] && !(name[0] == 'r' && arg == "+0")) || nReset[i] {
+						goto done // no new data: not applicable here
+					}
+					var f debugFrame
+					if name[0] == 's' {
+						f = debugFrameStream{id: ids[i], off: nhw[i], data: make([]byte, end-nhw[i])}
+					} else {
+						f = debugFrameResetStream{id: ids[i], code: 3, finalSize: end}
+					}
+					frames = append(frames, f)
+					overS := end > limS[i]
+					overC := total+(end-nhw[i]) > limC
+					if overS || overC {
+						over, overWhich = k, "connection"
+						if overS {
+							overWhich = "stream"
+						}
+						if closedRead[i] && name[0] == 's' {
+							overSfx = "/on-read-closed-stream"
+						} else if nTainted {
+							overSfx = "/after-data-on-read-closed-stream"
+						} else if k > 0 {
+							overSfx = "/after-other-frames-in-same-packet"
+						}
+						overDesc = fmt.Sprintf("%T on stream %d ending at %d (highest offsets before that frame %v): stream limit on the wire %d, connection limit on the wire %d, connection total would be %d", f, i, end, nhw, limS[i], limC, total+(end-nhw[i]))
+						break // the peer stops here; later frames of the op are not sent
+					}
+					if closedRead[i] && name[0] == 's' {
+						nTainted = true
+					}
+					nhw[i] = end
+					if name[0] == 'r' {
+						nReset[i] = true
+					}
 				}
-				if end <= hw[i] || isReset[i] {
-					goto done // no new data: not applicable here
-				}
-				overS := end > advS(i)
-				overC := total+(end-hw[i]) > adv.advC
-				var f debugFrame
-				if name[0] == 's' {
-					f = debugFrameStream{id: ids[i], off: hw[i], data: make([]byte, end-hw[i])}
-				} else {
-					f = debugFrameResetStream{id: ids[i], code: 3, finalSize: end}
-				}
-				limS, limC := advS(i), adv.advC
-				q.write(f)
+				sentBefore := len(q.sent)
+				q.write(frames...)
 				adv.observe(w, q, op, cs, nil)
 				if w.Failed() {
 					return
 				}
-				if overS || overC {
-					which := "connection"
-					if overS {
-						which = "stream"
-					}
+				if over >= 0 {
 					if q.closed && !q.closeApp && q.closeErr == errFlowControl {
-						w.Outcome("FLOW_CONTROL_ERROR:" + which)
+						w.Outcome("FLOW_CONTROL_ERROR:" + overWhich)
+						if over > 0 {
+							w.Outcome("FLOW_CONTROL_ERROR:after-other-frames-in-same-packet")
+						}
 						ran++
 						goto done
-					}
-					sfx := ""
-					if closedRead[i] && name[0] == 's' {
-						sfx = "/on-read-closed-stream"
-					} else if tainted {
-						sfx = "/after-data-on-read-closed-stream"
 					}
 					got := "no CONNECTION_CLOSE"
 					if q.closed {
 						got = fmt.Sprintf("CONNECTION_CLOSE %v", q.closeErr)
 					}
-					w.Failf("C20/recv/over-limit-not-rejected/"+which+sfx, "peer sent %T on stream %d ending at %d (previous highest offsets %v): stream limit advertised %d, connection limit advertised %d, connection total would be %d: want FLOW_CONTROL_ERROR, got %s; case=%+v", f, i, end, hw, limS, limC, total+(end-hw[i]), got, cs)
+					w.Failf("C20/recv/over-limit-not-rejected/"+overWhich+overSfx, "peer sent one packet with %d frame(s) %v, frame %d being %s: want FLOW_CONTROL_ERROR, got %s; frames the conn sent in answer: %s; case=%+v", len(frames), frames, over+1, overDesc, got, qpeerFrames(q.sent[sentBefore:]), cs)
 					return
 				}
 				if q.closed {
-					w.Failf("C20/recv/in-limit-frame-rejected", "peer sent %T on stream %d ending at %d (previous highest offsets %v), within the stream limit %d and the connection limit %d, and the conn closed with %v; case=%+v", f, i, end, hw, limS, limC, q.closeErr, cs)
+					w.Failf("C20/recv/in-limit-frame-rejected", "peer sent one packet with frame(s) %v (highest offsets before %v, after %v), within the stream limits %v and the connection limit %d on the wire, and the conn closed with %v; case=%+v", frames, hw, nhw, limS, limC, q.closeErr, cs)
 					return
 				}
-				if closedRead[i] && name[0] == 's' {
-					tainted = true
-				}
-				hw[i] = end
-				if name[0] == 'r' {
-					isReset[i] = true
-				}
+				hw, isReset, tainted = nhw, nReset, nTainted
 				w.Outcome("frame-accepted")
+				if len(frames) > 1 {
+					w.Outcome("multi-frame-packet-accepted")
+				}
 			default:
 				t.Fatalf("unknown op %q", op)
 			}
@@ -519,9 +552,19 @@ func (g c20RecvGen) Enabled(op string) bool {
 		i, _ := strconv.Atoi(op[2:])
 		return !g.cr[i]
 	}
+	if a, b, ok := strings.Cut(op, "&"); ok { // several frames in one packet
+		if !g.Enabled(a) {
+			return false
+		}
+		g1, terminal := g.Apply(a)
+		return !terminal && g1.Enabled(b)
+	}
 	i, end, known := g.resolve(op)
 	if g.rst[i] {
 		return false
+	}
+	if op[0] == 'r' && strings.HasSuffix(op, ":+0") {
+		return true // RESET_STREAM with the current highest offset as final size
 	}
 	return !known || end > g.hw[i]
 }
@@ -539,6 +582,16 @@ func (g c20RecvGen) Apply(op string) (qpeerGen, bool) {
 		g.cr[i], g.touched = true, true
 		return g, false
 	}
+	if a, b, ok := strings.Cut(op, "&"); ok {
+		g1, terminal := g.Apply(a)
+		if terminal {
+			return g1, true
+		}
+		g2, terminal := g1.Apply(b)
+		g3 := g2.(c20RecvGen)
+		g3.last = op
+		return g3, terminal
+	}
 	i, end, known := g.resolve(op)
 	if !known {
 		arg := op[strings.Index(op, ":")+1:]
@@ -554,14 +607,28 @@ func (g c20RecvGen) Apply(op string) (qpeerGen, bool) {
 	}
 	if op[0] == 'r' {
 		g.rst[i] = true
+		if strings.HasSuffix(op, ":+0") {
+			g.touched = true // discarding unread data returns connection credit: a MAX_DATA may follow
+		}
 	}
 	g.hw[i] = end
 	return g, false
 }
 
+// c20Pairs lists the two-frame packets "a&b" for every a of first and b of second.
+func c20Pairs(first, second []string) []string {
+	var out []string
+	for _, a := range first {
+		for _, b := range second {
+			out = append(out, a+"&"+b)
+		}
+	}
+	return out
+}
+
 func TestVerif_C20(t *testing.T) {
 	vx.Run(t, "C20", func(c *vx.Ctx) {
-		c.Rule("q-peer, each case on a fresh handshaken Conn in its own synctest bubble, every enabled operation sequence up to the depth of the part, shortest first. send: two local streams, peer stream window 150 / connection window 200; Write(100|5000)/Flush per stream, peer MAX_DATA and MAX_STREAM_DATA with values {largest so far -50, +0, +120} in any order, ack-all / all-outstanding-lost / PTO; every STREAM frame sent (retransmissions included) is checked against the largest limits received so far. recv: two peer streams, own stream window 100 / connection window 150; peer STREAM (and RESET_STREAM) ending at {limit-1, limit, limit+1} of the advertised stream limit and of the advertised connection limit, +40 increments, Read(1000), Read(10), CloseRead, ack, loss; reference model of the limits as advertised in the frames the conn sent. Non-trivial = whole sequence executed (or ended in the expected FLOW_CONTROL_ERROR). Counters: states = histories explored completely (stateless search, no deduplication), transitions = operations applied to the real conn and checked, traces = cases executed.")
+		c.Rule("q-peer, each case on a fresh handshaken Conn in its own synctest bubble, every enabled operation sequence up to the depth of the part, shortest first. send: two local streams, peer stream window 150 / connection window 200; Write(100|5000)/Flush per stream, peer MAX_DATA and MAX_STREAM_DATA with values {largest so far -50, +0, +120} in any order, ack-all / all-outstanding-lost / PTO; every STREAM frame sent (retransmissions included) is checked against the largest limits received so far. recv: two peer streams, own stream window 100 / connection window 150; peer STREAM (and RESET_STREAM) ending at {limit-1, limit, limit+1} of the advertised stream limit and of the advertised connection limit, +40 increments, Read(1000), Read(10), CloseRead, ack, loss; reference model of the limits as advertised in the frames the conn sent. recv-packets (depth 3 quick / 4 thorough): the same alphabet plus RESET_STREAM with the current highest offset as final size (discards unread bytes, returns connection credit) and packets carrying TWO frames, first on stream 0 {+40 data, RESET_STREAM at current size, RESET_STREAM up to the connection limit}, second on stream 1 {+40, ending at connection limit, limit+1, RESET_STREAM to limit+1} (thorough: also stream 1 first, stream 0 second); each frame of a packet is judged against the limits that were on the wire before the packet, earlier frames of the packet counted. Non-trivial = whole sequence executed (or ended in the expected FLOW_CONTROL_ERROR). Counters: states = histories explored completely (stateless search, no deduplication), transitions = operations applied to the real conn and checked, traces = cases executed.")
 		c.Assume("half (a) of the design (two real endpoints with a qlog monitor under packet loss) is not part of this check; loss here is 'every outstanding packet lost' or a PTO, driven by the scripted peer")
 		c.Assume("the clause 'sends-less-than-limits-allow' (a stale MAX_* must not lower what the conn sends) is evaluated only for histories without loss/PTO, after flushing everything and 20 ms of fake time")
 		c.Assume("the scripted peer is taken to know every MAX_DATA / MAX_STREAM_DATA frame the conn has put on the wire, even in packets it later declares lost")
@@ -576,6 +643,15 @@ func TestVerif_C20(t *testing.T) {
 		recvOps := vx.Pick(c,
 			[]string{"s0:+40", "s0:sl0", "s0:sl1", "s0:cl0", "s0:cl1", "s1:+40", "s1:cl0", "s1:cl1", "r0:cl0", "r1:cl1", "rd0", "rs0", "cr0", "ack", "loss"},
 			[]string{"s0:+40", "s0:sl-1", "s0:sl0", "s0:sl1", "s0:cl-1", "s0:cl0", "s0:cl1", "s1:+40", "s1:sl1", "s1:cl0", "s1:cl1", "r0:sl1", "r0:cl0", "r1:cl1", "rd0", "rs0", "rd1", "cr0", "cr1", "ack", "loss"})
+		// recv-packets: the recv alphabet plus RESET_STREAM at the current highest offset and packets that
+		// carry two frames, the first on stream 0 (data, or a RESET_STREAM that returns connection credit
+		// for unread bytes), the second on stream 1 ending below / at / beyond the connection limit.
+		recvPktOps := append(append([]string(nil), recvOps...), "r0:+0")
+		recvPktOps = append(recvPktOps, c20Pairs([]string{"s0:+40", "r0:+0", "r0:cl0"}, []string{"s1:+40", "s1:cl0", "s1:cl1", "r1:cl1"})...)
+		if !c.Quick() {
+			recvPktOps = append(recvPktOps, "r1:+0")
+			recvPktOps = append(recvPktOps, c20Pairs([]string{"s1:+40", "r1:+0"}, []string{"s0:+40", "s0:sl1", "s0:cl0", "s0:cl1"})...)
+		}
 		type part struct {
 			name   string
 			combos []combo
@@ -587,6 +663,7 @@ func TestVerif_C20(t *testing.T) {
 		parts := []part{
 			{"send-kinds", sendCombosShallow, sendOps, vx.Pick(c, 3, 4), c20SendGen{}, c20ExecSend},
 			{"recv", recvCombos, recvOps, vx.Pick(c, 5, 5), c20RecvGen{}, c20ExecRecv},
+			{"recv-packets", recvCombos, recvPktOps, vx.Pick(c, 3, 4), c20RecvGen{}, c20ExecRecv},
 			{"send", sendCombos, sendOps, vx.Pick(c, 5, 5), c20SendGen{}, c20ExecSend},
 		}
 		for _, p := range parts {
